@@ -26,13 +26,13 @@ PROP = {
         "shards": {"quick": 10, "thorough": 16},
         "watchdog": {"quick": 900, "thorough": 5400},
         "floors": {"quick": {"trials": 1500, "oracle_exact_outputs": 800, "unaffordable_trials": 100},
-                   "thorough": {"trials": 40000}},
+                   "thorough": {"trials": 13000}},
     }, {
         "name": "negotiation", "pkg": "lnwallet/chancloser", "test": "TestVerifC17Negotiation",
         "files": ["lnwallet/chancloser/c17neg_test.go"], "exports": {"lnwallet": E1X},
         "shards": {"quick": 8, "thorough": 16},
         "watchdog": {"quick": 900, "thorough": 5400},
         "floors": {"quick": {"nontrivial": 150, "oracle_terminates": 150},
-                   "thorough": {"nontrivial": 5000}},
+                   "thorough": {"nontrivial": 1700}},
     }],
 }
